@@ -294,6 +294,11 @@ func (cz *concretizer) build(v Val, t types.Type, depth int) *cval {
 		}
 		return cv
 	}
+	if iv, ok := v.(*IfaceV); ok && iv != nil {
+		if types.TypeString(types.Unalias(t), nil) == "io.Writer" {
+			return &cval{kind: "writer", typ: t}
+		}
+	}
 	return &cval{kind: "zero", typ: t}
 }
 
@@ -306,6 +311,8 @@ func (cv *cval) goExpr(q types.Qualifier) string {
 		return fmt.Sprintf("%v", cv.b)
 	case "nil":
 		return "(" + ts + ")(nil)"
+	case "writer":
+		return "io.Writer(new(govcBuf))"
 	case "bytes":
 		var sb strings.Builder
 		sb.WriteString(ts + "{")
@@ -434,7 +441,16 @@ func TryReplay(e *Engine, r Result, dir, name, scratch string) (string, bool) {
 		for path, nm := range imports {
 			fmt.Fprintf(&sb, "\t%s %q\n", nm, path)
 		}
+		usesWriter := strings.Contains(body.String(), "govcBuf")
+		if usesWriter {
+			if _, ok := imports["io"]; !ok {
+				sb.WriteString("\tio \"io\"\n")
+			}
+		}
 		sb.WriteString(")\n\n")
+		if usesWriter {
+			sb.WriteString("type govcBuf struct{ b []byte }\n\nfunc (g *govcBuf) Write(p []byte) (int, error) { g.b = append(g.b, p...); return len(p), nil }\n\n")
+		}
 		fmt.Fprintf(&sb, "func %s(t *testing.T) {\n", testName)
 		sb.WriteString("\tdefer func() {\n\t\tif r := recover(); r != nil {\n\t\t\tt.Fatalf(\"GOVC-REPRODUCED: the real code panics on the model input: %v\", r)\n\t\t}\n\t}()\n")
 		sb.Write(body.Bytes())
@@ -457,8 +473,8 @@ func TryReplay(e *Engine, r Result, dir, name, scratch string) (string, bool) {
 		cmd.Env = append(os.Environ(), "GOFLAGS=-mod=mod", "GOPROXY=off", "GOSUMDB=off", "GOTOOLCHAIN=local")
 		out, _ := cmd.CombinedOutput()
 		os.Remove(ov)
-		if bytes.Contains(out, []byte("GOVC-REPRODUCED")) {
-			reproduced = true
+		if bytes.Contains(out, []byte("GOVC-REPRODUCED")) && r.O.Kind == "safety" {
+			reproduced = true // a safety obligation is violated exactly when the real call panics
 		}
 		res := string(out)
 		if len(res) > 3000 {
